@@ -66,7 +66,13 @@ unsafe fn record(ptr: *const u8, size: usize) {
 
 unsafe impl GlobalAlloc for TracingAlloc {
     unsafe fn alloc(&self, l: Layout) -> *mut u8 {
-        System.alloc(l)
+        let p = System.alloc(l);
+        // while armed, fresh blocks are cleared: what a block holds when it is released must have been WRITTEN there during the
+        // section, not be left over from an earlier owner of the same memory (e.g. an unwiped reallocation of the harness itself)
+        if !p.is_null() && ARMED.load(Ordering::Relaxed) {
+            std::ptr::write_bytes(p, 0, l.size());
+        }
+        p
     }
 
     unsafe fn dealloc(&self, p: *mut u8, l: Layout) {
@@ -77,7 +83,11 @@ unsafe impl GlobalAlloc for TracingAlloc {
     unsafe fn realloc(&self, p: *mut u8, l: Layout, new_size: usize) -> *mut u8 {
         // the old block may be released (or truncated) by the system allocator: what it holds now is what leaks
         record(p, l.size());
-        System.realloc(p, l, new_size)
+        let q = System.realloc(p, l, new_size);
+        if !q.is_null() && new_size > l.size() && ARMED.load(Ordering::Relaxed) {
+            std::ptr::write_bytes(q.add(l.size()), 0, new_size - l.size());
+        }
+        q
     }
 }
 
